@@ -15,7 +15,7 @@ import sys
 import registry
 
 B_PREFIX = {"opts/": "opts", "routes/": "routes", "policy/": "policy", "cache/": "cache", "policy-addresses/": "dhcpcfg", "policy-options/": "dhcpcfg",
-            "radv-wire/": "radv", "ratelimit/": "ratelimit", "listener/": "listener", "http/": "http"}
+            "radv-wire/": "radv", "ratelimit/": "ratelimit", "listener/": "listener", "http/": "http", "wire/": "wire"}
 
 
 def run(prop, path, scratch):
